@@ -91,6 +91,15 @@ CLAIMED.update({
         "go/types + go/ssa of x/tools v0.29.0; PLY type table from the published format.",
         "DESIGN.md 3.6, 4 C08; checker/props/c08/REPORT.md",
     ),
+    "C09": (
+        "exhaustive evaluation of the 256-case table and edge tables read from the type-checked source against a corner model extracted from SSA (layout, sample provenance, case bits, polarity, vertex formula, emission order); rational-function identity for the interpolant; axis-tag, stride/exact-cover, padding, cross-block, allocator, merge/weld rules on go/ssa",
+        "Decides exhaustively over all 256 sign configurations x 6 faces and 12 edges, with the corner numbering read from the code rather than assumed: each edge joins corners differing in one axis; every case's triangles use exactly the sign-changing edges, no directed edge twice, every unmatched directed edge lies on one cube face, "
+        "the segments on a face are a function of that face's four signs and the opposite face gives the reversed set (any two adjacent cells close against each other), orientation is consistent with the strict polarity the code uses for all eight corners, existence bit k is 1<<k, the per-corner lists agree with the edge tables, the tables are never written. "
+        "Also: the emitted vertex is the affine interpolant between the two corner samples of the same edge entry; x/y/z are never swapped; the linear index is a bijection onto the S^3 cells allocated; the domain is padded by one cell on all axes; the cross-block corner fetch resets each axis with itself, exactly on the last cell, at the right block; block coordinates use floor; all blocks are merged and welded on the marched attribute. "
+        "Table-level closedness and orientation are decided exhaustively; geometric closeness, weld precision and degenerate triangles at samples equal to the threshold are not.",
+        "go/types + go/ssa of x/tools v0.29.0; real arithmetic for the interpolant identity.",
+        "DESIGN.md 3.8, 4 C09; checker/props/c09/REPORT.md",
+    ),
     "C10": (
         "polynomial identities of the worker ranges (telescoping partition) over go/ssa, context-sensitive lockset over worker/coordinator regions, wait-group/channel discipline, sequential-vs-parallel operand agreement, axis tags",
         "Decides for every element count, pool size >= 1 and schedule: the seven *ParallelWithPoolSize methods' worker ranges partition [0,total) exactly (lo(0)=0, hi(i)=lo(i+1), last hi=total, width floor(total/workers)), the callback gets (i, element i) and results land in dst[i], "
